@@ -874,7 +874,7 @@ func (r TypeInfo) IsPtr() bool {
 func (r TypeInfo) IsTuple() bool {
 	switch nt := r.Type.(type) {
 	case *types.Named:
-		if nt.Obj().Pkg().Path() == "github.com/csgura/fp" && strings.HasPrefix(nt.Obj().Name(), "Tuple") {
+		if nt.Obj().Pkg() != nil && nt.Obj().Pkg().Path() == "github.com/csgura/fp" && strings.HasPrefix(nt.Obj().Name(), "Tuple") {
 			return true
 		}
 	}
@@ -884,7 +884,7 @@ func (r TypeInfo) IsTuple() bool {
 func (r TypeInfo) IsOption() bool {
 	switch nt := r.Type.(type) {
 	case *types.Named:
-		if nt.Obj().Pkg().Path() == "github.com/csgura/fp" && nt.Obj().Name() == "Option" {
+		if nt.Obj().Pkg() != nil && nt.Obj().Pkg().Path() == "github.com/csgura/fp" && nt.Obj().Name() == "Option" {
 			return true
 		}
 	}
